@@ -105,7 +105,7 @@ type c09State struct {
 	orphans []struct{ key, id, etag string }
 }
 
-var c09Keys = []string{"k", "d/x", "d/y", "d/e/z", "v/current-deleted", "v/marker", "up/gaps", "nokey", "d", "d/", "sp ace+%25", "é"}
+var c09Keys = []string{"k", "d/x", "d/y", "d/e/z", "v/current-deleted", "v/marker", "v/only-markers", "up/gaps", "nokey", "d", "d/", "sp ace+%25", "é"}
 
 func c09Path(rng *rand.Rand, buckets []string) string {
 	b := buckets[rng.Intn(len(buckets))]
@@ -370,6 +370,11 @@ func c09Setup(s *drv.Server, kind string, buckets []string) *c09State {
 		cur := note("v/current-deleted", s.Put(b, "v/current-deleted", []byte("second"), nil))
 		s.Do(&drv.Req{Method: "DELETE", Path: drv.ObjPath(b, "v/current-deleted"), Query: drv.Q("versionId", cur)})
 		note("k", s.Put(b, "k", []byte("versioned k"), nil))
+		// a key of which only delete markers remain (two of them; the object version was removed by id)
+		only := note("v/only-markers", s.Put(b, "v/only-markers", []byte("gone"), nil))
+		note("v/only-markers", s.Delete(b, "v/only-markers"))
+		note("v/only-markers", s.Delete(b, "v/only-markers"))
+		s.Do(&drv.Req{Method: "DELETE", Path: drv.ObjPath(b, "v/only-markers"), Query: drv.Q("versionId", only)})
 	}
 	if id, _ := mpInitiate(s, b, "up/gaps", drv.H("x-amz-meta-u", "1")); id != "" {
 		for _, n := range []int{1, 3, 7} {
@@ -611,7 +616,7 @@ type c09Config struct {
 
 func runC09(c *Ctx) {
 	r := c.R
-	r.SetRule("requests generated from a grammar of the routed surface: 16 methods x bucket/object/hostile paths x 0-6 query parameters out of 28 sub-resource and paging names with values from hostile classes (empty, negative, 2^31/2^63/2^64 neighbourhood, non-numeric, NUL, invalid UTF-8, overlong, existing and garbage upload/version ids, malformed tokens) x up to 3 headers out of 14 kinds (Range, Content-MD5, copy source, streaming sha256, decoded length, conditionals, dates, force-delete, CORS, multipart form, metadata, declared length variants) x 31 bodies (valid/mutated XML for complete/delete/versioning, entity bombs, binary), against stores with objects, versions, delete markers, a version-deleted current, pending uploads with gaps and pending uploads whose bucket has been deleted; all six backends plus option variants (host-bucket, auto-bucket, no-versioning, unimplemented-page error, integrity off); every response is judged (no panic, status 200-599, error body is an S3 <Error> document whose code fits the status) and a canary script of correct requests on the fuzzed buckets and an untouched bucket runs after every 50 requests; then rounds in which 8 clients fire such requests at one server concurrently (every response judged, hang watchdog on every in-flight request, canary after each round); distinct = (config, method, route class, parameter-name set, status, error code)")
+	r.SetRule("requests generated from a grammar of the routed surface: 16 methods x bucket/object/hostile paths x 0-6 query parameters out of 28 sub-resource and paging names with values from hostile classes (empty, negative, 2^31/2^63/2^64 neighbourhood, non-numeric, NUL, invalid UTF-8, overlong, existing and garbage upload/version ids, malformed tokens) x up to 3 headers out of 14 kinds (Range, Content-MD5, copy source, streaming sha256, decoded length, conditionals, dates, force-delete, CORS, multipart form, metadata, declared length variants) x 31 bodies (valid/mutated XML for complete/delete/versioning, entity bombs, binary), against stores with objects, versions, delete markers, a version-deleted current, a key of which only delete markers remain, pending uploads with gaps and pending uploads whose bucket has been deleted; all seven backend configurations plus option variants (host-bucket, auto-bucket, no-versioning, unimplemented-page error, integrity off); every response is judged (no panic, status 200-599, error body is an S3 <Error> document whose code fits the status) and a canary script of correct requests on the fuzzed buckets and an untouched bucket runs after every 50 requests; then rounds in which 8 clients fire such requests at one server concurrently (every response judged, hang watchdog on every in-flight request, canary after each round); distinct = (config, method, route class, parameter-name set, status, error code)")
 	perCfg := r.Pick(40000, 1000000)
 	var cfgs []c09Config
 	for _, k := range drv.AllKinds {
